@@ -323,3 +323,29 @@ func VerifC05FlattenAnnotatedChild() {
 	verif.Assert("C05/flatten-annotated/child-keeps-its-own-annotations", verif.JEqual(data, want))
 	verif.Reach("C05/flatten-annotated/decided")
 }
+
+// VerifC04FlattenSameName: a flattened field whose own JSON name equals one of the promoted
+// child keys (Price{ Money amount [flatten] } with Money{currency_code, amount}).
+func VerifC04FlattenSameName() {
+	m := &PriceMsg{Sku: verif.String("sku", verif.L(2))}
+	if verif.Bool("amount.present") {
+		m.Amount = &Money{CurrencyCode: verif.String("currency", verif.L(2)), Amount: verif.Int64("amount")}
+	}
+	data, err := m.MarshalJSON()
+	verif.Assert("C04/flatten-same-name/marshal-ok", err == nil)
+	cur, amt := "", int64(0)
+	if m.Amount != nil {
+		cur, amt = m.Amount.CurrencyCode, m.Amount.Amount
+	}
+	want := verif.JObjOpt("sku", verif.JStr(m.Sku), m.Sku != "", "currencyCode", verif.JStr(cur), cur != "",
+		"amount", verif.JStr(strconv.FormatInt(amt, 10)), amt != 0)
+	verif.Assert("C05/flatten-same-name/wire=reference-mapping", verif.JEqual(data, want))
+	var back PriceMsg
+	verif.Assert("C04/flatten-same-name/unmarshal-own-output", back.UnmarshalJSON(data) == nil)
+	same := verif.And(back.Sku == m.Sku, (back.Amount != nil) == (cur != "" || amt != 0))
+	if back.Amount != nil {
+		same = verif.And(same, back.Amount.CurrencyCode == cur, back.Amount.Amount == amt)
+	}
+	verif.Assert("C04/flatten-same-name/round-trip", same)
+	verif.Reach("C04/flatten-same-name/decided")
+}
